@@ -8,6 +8,7 @@ from .engine import BUILD_DIM_CFGS, Result, build_dimension, finish, log, quick_
 SAN_QUICK = ['none', 'SSE2', 'AVX2', 'ALL']
 CLANG_QUICK = ['none', 'SSE2', 'ALL']
 STD_ROT = [11, 14, 17, 20]
+DFP_SRCS = ('c02_cmp_flt.cpp', 'c07_sel_flt.cpp', 'c10_farith.cpp', 'c11_round.cpp', 'c12_fmanip.cpp', 'c13_fclass.cpp', 'c16_scalar_flt.cpp')
 
 
 def _cfgset(names):
@@ -79,6 +80,16 @@ def plan_value(prop, srcs, tier, parts=(1, 2, 3, 4), san=True, landmarks=configs
             for n in ns:
                 for p in sparts:
                     add(src, names[n], comp, std, variant, p)
+    # default floating-point flags (no -frounding-math, contraction allowed) for the float harnesses: round-to-nearest cells only
+    dfp_cfgs = [n for n in lm if n != 'none'] or lm
+    for src, sparts in srcs:
+        if src in DFP_SRCS:
+            for n in dfp_cfgs:
+                for p in sparts:
+                    add(src, names[n], 'g++', 11, 'dfp', p)
+            for p in sparts:
+                add(src, names[dfp_cfgs[0]], 'clang++', 14, 'dfp', p)
+    bd['default_fp_flag_builds'] = ['%s/g++-c++11/dfp' % n for n in dfp_cfgs] + ['%s/clang++-c++14/dfp' % dfp_cfgs[0]] if any(src in DFP_SRCS for src, _ in srcs) else []
     bd['optimisation_level_builds'] = ['%s/%s-c++%d/%s' % (n, comp, std, variant) for comp, std, variant, ns in opt_plan for n in ns]
     lad = dict(lad)
     lad['build_dimension'] = bd
